@@ -9,13 +9,13 @@ from .lib.mir import AnchorLost
 CONFIGS_QUICK = ["A"]
 CONFIGS_THOROUGH = ["A", "R", "ASYNCSTD", "SMOL", "NIO", "GLOMMIO", "NOAPI"]
 TECHNIQUE = "field-exhaustiveness of the reset functions against the ADT tables + event-order rules (dominance / reachability avoiding an event) on the session coroutine's built MIR"
-LEVEL_TEXT = ("Decides clauses C05-a/b: every field of Request (and of request Headers, Context, IndexMap, TupleMap) that holds per-request state is reassigned "
-              "or cleared by the corresponding clear(), the only exemptions being the audited connection-scoped ones, so a field added later without a reset "
-              "fails the rule; the whole reset is conditional only on `nothing was read`; in the session loop no path leads from one read to the next without "
-              "clear(), the router runs only on the Ok(Some) edge of read, every path from the router (or from a parse error) back to the loop head or out "
-              "of the loop passes Response::send, the close flag is read before the handler can touch the request and acted on after the send, and nothing "
-              "is spawned inside the loop (one read->send chain per iteration, hence responses in request order). Decides these clauses, not "
-              "non-observability for all request histories.")
+LEVEL_TEXT = ('Decides clauses C05-a/b: every field of Request (and of request Headers, Context, IndexMap, TupleMap) that holds per-request state is reassigned or '
+              'cleared by the corresponding clear(), the only exemptions being the audited connection-scoped ones, so a field added later without a reset fails the '
+              'rule; the whole reset is conditional only on `nothing was read`; in the session loop no path leads from one read to the next without clear(), the '
+              'router runs only on the Ok(Some) edge of read, every path from the router (or from a parse error) back to the loop head or out of the loop passes '
+              'Response::send, the close flag is read before the handler can touch the request, acted on after the send and true only on paths where the Connection '
+              'value compared equal to `close` (any other value keeps the session, so the requests that follow are answered), and nothing is spawned inside the loop '
+              '(one read->send chain per iteration, hence responses in request order). Decides these clauses, not non-observability for all request histories.')
 
 # field -> reason it needs no reset
 EXEMPT = {
@@ -145,14 +145,18 @@ def c05b(ck, prog):
     R = "C05-b MUSTPASS session loop"
     manage = prog.one(r"^ohkami::session::Session::manage$")
     bodies = [g for g in prog.descendants(manage.key) if g.coroutine]
-    cand = [g for g in bodies if g.calls_to(r"^ohkami::request::Request::read$")]
+    # the loop's statements may sit in local async helpers it awaits (one turn of the loop as a function): read the
+    # coroutine with those spliced in at the await
+    views = [prog.awaited_inlined(g, 2, containing=r"^ohkami::request::Request::read$|^ohkami::response::Response::send$|router::.*Router::handle$") for g in bodies]
+    cand = [g for g in views if g.calls_to(r"^ohkami::request::Request::read$") and g.calls_to(r"^ohkami::request::Request::clear$")]
     if len(cand) != 1:
         raise AnchorLost("the session loop coroutine was not found (%d candidates)" % len(cand))
     f = cand[0]
+    family = [f] + prog.descendants(f.key) + [g for k in f.rec.get("inlined", []) for g in prog.descendants(k)]
     one = lambda pat, what: _one(f, pat, what)
     clear = one(r"^ohkami::request::Request::clear$", "req.clear()")
     read = one(r"^ohkami::request::Request::read$", "req.read()")
-    handle = [c for g in [f] + prog.descendants(f.key) for c in g.calls_to(r"router::.*Router::handle$")]
+    handle = [c for g in family for c in g.calls_to(r"router::.*Router::handle$")]
     if len(handle) != 1:
         raise AnchorLost("router.handle call not found")
     hc = handle[0]
@@ -194,29 +198,80 @@ def c05b(ck, prog):
     ok = len(conn) == 1 and f.dominates(conn[0].bb, hb)
     ck.ob(R, "close-read-before-handle", ok, f.loc(conn[0].sp if conn else None), "" if ok else "the Connection header is not read before the router (which may mutate the request) runs", how="headers.Connection() dominates router.handle")
     if ok:
-        # the switch on `close`: a bool variable defined from the Connection() match; its test must come after the send
-        sw = []
-        for bi in sorted(f.live_blocks()):
-            t = f.term(bi)
-            if t["k"] == "switch" and t["dty"] == "bool" and t["discr"][0] in ("c", "m"):
-                st = f.origin(t["discr"])
-                if not (st and st[-1][0] == "multi"):
-                    continue
-                l = st[-1][1]
-                # the flag: a bool assigned constants in the arms of the match on headers.Connection()
-                defs = [d for d in f.defs().get(l, []) if not f.is_cleanup(d[0])]
-                from_conn = False
-                for dbb, si, dk, payload in defs:
-                    for fa in guards.facts_at(f, prog, dbb):
-                        if fa.kind in ("variant", "cmp", "boolcall") and "Connection" in (guards.describe_origin(f, getattr(fa, "steps", None) or getattr(fa, "lhs", None) or []) + (fa.call.name if fa.kind == "boolcall" else "")):
-                            from_conn = True
-                if from_conn:
-                    sw.append(bi)
+        # the decision to end the session: a bool computed from the Connection() value (a `matches!`, an `==`, a predicate
+        # closure handed to is_some_and -- combinators and closure calls expanded); its test must come after the send,
+        # and it may be true only where the header value was compared equal to `close`
+        from .lib import inline as _inline, pathsens
+        g = _inline.inline_closure_calls(prog, _inline.expand_combinators(prog, f))
+        gconn = [c for c in g.calls() if c.bb == conn[0].bb][0]
+        from_conn = lambda op: "Connection(" in decision.describe_deep(g, op, 8)
+
+        def close_literal(c):
+            """`x == "close"`-like call on the Connection value -> (is such a comparison, literal accepted)"""
+            if c.name not in ("eq", "ne", "eq_ignore_ascii_case", "starts_with", "ends_with", "contains", "matches") or len(c.args) < 2:
+                return False, False
+            lits = [(g.const_args(c)[i] or {}).get("s") for i in range(len(c.args))]
+            others = [a for i, a in enumerate(c.args) if lits[i] is None]
+            lit = next((x for x in lits if x is not None), None)
+            if lit is None or not others or not any(from_conn(a) for a in others):
+                return False, False
+            good = (c.name == "eq" and lit in ("close", "Close")) or (c.name == "eq_ignore_ascii_case" and lit.lower() == "close")
+            return True, good
+
+        def eq_close_edge(facts):
+            for fa in facts:
+                if fa.kind == "boolcall" and fa.truth:
+                    is_cmp, good = close_literal(fa.call)
+                    if is_cmp and good:
+                        return True
+            return False
+        sw, bad = [], []
+        const_defs = {}
+        for bi in sorted(g.live_blocks()):
+            t = g.term(bi)
+            if not (t["k"] == "switch" and t["dty"] == "bool" and t["discr"][0] in ("c", "m")) or g.is_cleanup(bi):
+                continue
+            involved = False
+            probs = []
+            for kind, pl, dbb in paths.value_defs(g, t["discr"]):
+                if kind == "const":
+                    if str(pl.get("v")) == "1" and dbb is not None and gconn.target is not None and dbb in g.reachable_from(gconn.target):
+                        # which comparisons lie on the paths to this `true`?
+                        cmps = [c for c in g.calls() if close_literal(c)[0] and dbb in g.reachable_from(c.bb)]
+                        if cmps:
+                            involved = True
+                            ex = pathsens.path_avoiding_edges(g, prog, gconn.target, dbb, eq_close_edge)
+                            if ex is not None:
+                                probs.append("`true` at %s is reachable without the header having compared equal to `close`" % g.loc(g.blocks[dbb]["t"].get("sp")))
+                elif kind == "call":
+                    is_cmp, good = close_literal(pl)
+                    if is_cmp:
+                        involved = True
+                        if not good:
+                            probs.append("decided by `%s(.., %r)`" % (pl.name, [(g.const_args(pl)[i] or {}).get("s") for i in range(len(pl.args))]))
+                    elif any(from_conn(a) for a in pl.args if a[0] in ("c", "m")) and pl.name not in ("is_some", "is_none"):
+                        involved = True
+                        probs.append("decided by `%s` on the header value" % pl.name)
+                elif kind == "not":
+                    if from_conn(pl):
+                        involved = True
+                        probs.append("decided by a negated test of the header value")
+            if involved:
+                sw.append(bi)
+                bad += probs
+                const_defs[bi] = {dbb for kind, pl, dbb in paths.value_defs(g, t["discr"]) if kind == "const" and dbb is not None}
+        # comparisons that only compute the flag (the arms of a `matches!`, the operands of `||`) are not where the
+        # decision is acted on
+        internal = {bi for bi in sw if any(d in g.reachable_from(bi) for bj, ds in const_defs.items() if bj != bi for d in ds)}
+        sw = [bi for bi in sw if bi not in internal]
         main_send = [c for c in sends if c not in errsend]
-        ok2 = bool(sw) and bool(main_send) and all(any(f.dominates(s.bb, b) for s in main_send) for b in sw)
-        ck.ob(R, "close-acted-on-after-send", ok2, f.loc(None), "" if ok2 else "`Connection: close` ends the session before the response of that request has been sent", how="the test of `close` is dominated by res.send()")
+        ok2 = bool(sw) and bool(main_send) and all(any(g.dominates(s.bb, b) for s in main_send) for b in sw)
+        ck.ob(R, "close-acted-on-after-send", ok2, f.loc(None), "" if ok2 else "`Connection: close` ends the session before the response of that request has been sent (or no decision computed from the Connection header was found)", how="the test of `close` is dominated by res.send()")
+        ok3 = bool(sw) and not bad
+        ck.ob(R, "close-only-for-close", ok3, f.loc(conn[0].sp), "" if ok3 else "the session-ending decision taken from the Connection header is not `the value equals close`: %s -- a request with another Connection value would end the session "
+              "and the requests that follow it on the connection get no response" % "; ".join(bad[:3]), how="the flag is true only on paths where the header value compared equal to `close`/`Close`")
     # (4) nothing is spawned inside the loop
-    sp = [c for g in [f] + prog.descendants(f.key) for c in g.calls() if re.search(r"::spawn$|spawn_local$|spawn_blocking$", c.callee or "") and not (c.callee or "").startswith("core::")]
+    sp = [c for g in family for c in g.calls() if re.search(r"::spawn$|spawn_local$|spawn_blocking$", c.callee or "") and not (c.callee or "").startswith("core::")]
     ck.ob(R, "no-spawn-in-loop", not sp, f.loc(sp[0].sp if sp else None), "" if not sp else "a task is spawned inside the session loop (%s): responses may be produced out of request order" % sp[0].callee, how="no spawn in the session loop")
 
 
